@@ -21,6 +21,8 @@ type replayT struct {
 	Config    configT `json:"config"`
 	Stmt      int     `json:"statement_index"` // pool index, or -(k+1) for unparsable string k
 	Variant   int     `json:"variant"`
+	Stack     []int   `json:"stacked_statements,omitempty"` // stacked message: pool indices of its statements (Stmt = the first)
+	Spelling  int     `json:"stack_spelling,omitempty"`
 	YAML      string  `json:"yaml"`
 	Statement string  `json:"statement"`
 	Expected  string  `json:"expected"`
@@ -206,21 +208,44 @@ func (w *world) unitKey(d string, u handlerT, si int, ref tri) string {
 	case "queries":
 		return fmt.Sprintf("C05/verdict/queries/%s/%s/%s", u.Kind, w.stmtKind(si), dir)
 	case "tables":
-		if ref == yes {
-			quoted := false
-			var rec func(n *N)
-			rec = func(n *N) {
-				if n.K == "tbl" && (n.Quoted || reserved[strings.ToLower(n.A)]) {
-					quoted = true
-				}
-				for _, c := range n.C {
-					rec(c)
-				}
+		// the spelling of the statement's tables the disagreement may depend on: written with a schema /
+		// database qualifier, written as quoted identifier
+		quoted, qualified := false, false
+		var rec func(n *N)
+		rec = func(n *N) {
+			if n.K == "tbl" && (n.Quoted || reserved[strings.ToLower(n.A)]) {
+				quoted = true
 			}
-			rec(w.pool[si].Root)
-			if quoted {
-				return "C05/verdict/tables/quoted-table-name/" + dir
+			if n.K == "tbl" && n.S != "" {
+				qualified = true
 			}
+			for _, c := range n.C {
+				rec(c)
+			}
+		}
+		rec(w.pool[si].Root)
+		nq := 0
+		for _, ri := range u.Rules {
+			if strings.Contains(w.rules[ri].Table, ".") {
+				nq++
+			}
+		}
+		if qualified || nq > 0 {
+			form := "bare-rule"
+			switch {
+			case nq == len(u.Rules):
+				form = "qualified-rule"
+			case nq > 0:
+				form = "bare-and-qualified-rules"
+			}
+			tb := "bare-table-name"
+			if qualified {
+				tb = "qualified-table-name"
+			}
+			return fmt.Sprintf("C05/verdict/tables/%s/%s/%s/%s", tb, form, w.pool[si].Root.K, dir)
+		}
+		if ref == yes && quoted {
+			return "C05/verdict/tables/quoted-table-name/" + dir
 		}
 		return fmt.Sprintf("C05/verdict/tables/%s/%s/%s", u.Kind, w.stmtKind(si), dir)
 	}
@@ -398,8 +423,9 @@ func (w *world) judge(r *ev.Run, a *acc, d string, c configT, censor interface{ 
 	}
 }
 
-// runConfig loads one configuration through the real loader and judges every statement on it.
-func (w *world) runConfig(r *ev.Run, d string, c configT) {
+// runConfig loads one configuration through the real loader and judges every statement and every
+// stacked message of the layer on it.
+func (w *world) runConfig(r *ev.Run, d string, c configT, stacks []stackT) {
 	a := newAcc()
 	defer a.flush(r)
 	y := w.yamlOf(c, d)
@@ -420,6 +446,12 @@ func (w *world) runConfig(r *ev.Run, d string, c configT) {
 	}
 	for k := range unparsable {
 		w.judge(r, a, d, c, censor, y, -(k + 1))
+	}
+	if len(stacks) > 0 {
+		verdicts := make([]string, len(w.pool))
+		for _, st := range stacks {
+			w.judgeStack(r, a, d, c, censor, y, st, verdicts)
+		}
 	}
 	notCompared.Add(int64(a.skipped))
 }
@@ -550,6 +582,7 @@ func chainsUpTo(alpha []handlerT, minLen, maxLen int) [][]handlerT {
 type layerT struct {
 	name    string
 	configs []configT
+	stacks  []stackT // stacked messages judged on every configuration of the layer (stack.go)
 }
 
 func (w *world) layers() []layerT {
@@ -583,8 +616,9 @@ func (w *world) layers() []layerT {
 	coreStmts := []string{"sel-eq-1", "sel-join", "ins-1", "upd-1"}
 	coreTables := []string{"t1", "t2"}
 	ignore := []int{w.stmtIndex("sel-eq-1"), w.stmtIndex("ins-1"), -1}
+	pairStacks, coreStacks, wideStacks := w.stackSpaces()
 	if !w.thorough {
-		l2 := layerT{name: "chains<=2"}
+		l2 := layerT{name: "chains<=2", stacks: coreStacks}
 		for _, ch := range chainsUpTo(w.alphabet(w.coreSingles(coreStmts, coreTables), ignore), 0, 2) {
 			both(&l2, ch)
 		}
@@ -596,7 +630,8 @@ func (w *world) layers() []layerT {
 	ignore = append(ignore, w.stmtIndex("upd-1"))
 	singles := w.coreSingles(coreStmts, coreTables)
 	// layer "rule-pairs": every pair of core rules inside one handler, in the two contexts
-	l1b := layerT{name: "rule-pairs"}
+	ls[0].stacks = coreStacks
+	l1b := layerT{name: "rule-pairs", stacks: wideStacks}
 	for i := 0; i < len(singles); i++ {
 		for j := i + 1; j < len(singles); j++ {
 			contexts(&l1b, []int{singles[i][0], singles[j][0]})
@@ -613,7 +648,7 @@ func (w *world) layers() []layerT {
 		w.ruleSet(ruleRef{"patterns", "union", "stmt"}, ruleRef{"patterns", "sel-in-3", "values"}),
 		w.ruleSet(ruleRef{"queries", "del-1", ""}, ruleRef{"queries", "upd-1", ""}),
 	}
-	l2 := layerT{name: "chains<=2"}
+	l2 := layerT{name: "chains<=2", stacks: coreStacks}
 	for _, ch := range chainsUpTo(w.alphabet(append(append([][]int{}, singles...), pairs...), ignore), 0, 2) {
 		both(&l2, ch)
 	}
@@ -627,7 +662,7 @@ func (w *world) layers() []layerT {
 		w.ruleSet(ruleRef{"patterns", "ins-1", "values"}),
 		w.ruleSet(ruleRef{"patterns", "ins-1", "stmt"}, ruleRef{"queries", "upd-1", ""}),
 	}
-	l3 := layerT{name: "chains=3"}
+	l3 := layerT{name: "chains=3", stacks: pairStacks}
 	for _, ch := range chainsUpTo(w.alphabet(small, []int{w.stmtIndex("sel-eq-1"), -1}), 3, 3) {
 		both(&l3, ch)
 	}
@@ -642,8 +677,15 @@ func verdictPhase(r *ev.Run, w *world) {
 		w.selfCheck(d)
 	}
 	layers := w.layers()
+	if os.Getenv("C05_DEBUG") != "" {
+		for _, l := range layers {
+			per := len(w.pool)*nVariants + len(unparsable) + len(l.stacks)*w.stackSpellings()
+			fmt.Fprintf(os.Stderr, "layer %s: %d configurations x (%d statements, %d stacked messages) = %d evaluations per dialect\n", l.name, len(l.configs), len(w.pool)+len(unparsable), len(l.stacks), len(l.configs)*per)
+		}
+	}
 	nConfigs := 0
 	layerSizes := map[string]int{}
+	stackSizes := map[string]int{}
 	for _, d := range dialects {
 		setDialect(d)
 		for _, l := range layers {
@@ -652,14 +694,16 @@ func verdictPhase(r *ev.Run, w *world) {
 				break
 			}
 			cfgs := l.configs
+			stacks := l.stacks
 			t0 := time.Now()
-			done := par.Do(len(cfgs), r.Expired, func(i int) { w.runConfig(r, d, cfgs[i]) })
+			done := par.Do(len(cfgs), r.Expired, func(i int) { w.runConfig(r, d, cfgs[i], stacks) })
 			if os.Getenv("C05_DEBUG") != "" {
 				fmt.Fprintf(os.Stderr, "layer %s/%s: %d/%d configurations, %.1fs, %d evaluations so far\n", d, l.name, done, len(cfgs), time.Since(t0).Seconds(), r.Evals())
 			}
 			nConfigs += done
 			layerSizes[d+"/"+l.name] = done
-			r.States(done * (len(w.pool) + len(unparsable)))
+			r.States(done * (len(w.pool) + len(unparsable) + len(stacks)))
+			stackSizes[d+"/"+l.name] = done * len(stacks)
 			if done < len(cfgs) {
 				r.Capped(fmt.Sprintf("wall budget: layer %s (%s): %d of %d configurations done", l.name, d, done, len(cfgs)))
 			}
@@ -682,6 +726,12 @@ func verdictPhase(r *ev.Run, w *world) {
 	r.Set("pool_statements", len(w.pool))
 	r.Set("unparsable_strings", len(unparsable))
 	r.Set("formatting_variants", variantNames[:])
+	r.Set("stacked_messages_judged", stackSizes)
+	r.Set("stacked_message_spellings", stackSpellingNames[:w.stackSpellings()])
+	if ps, cs, ws := w.stackSpaces(); true {
+		r.Set("stacked_message_spaces", map[string]int{"pairs": len(ps), "core": len(cs), "wide": len(ws)})
+		r.Sample(map[string]string{"stacked_message": w.stackText("mysql", cs[len(cs)/3], spSemiSpace), "other_spelling": w.stackText("mysql", cs[len(cs)/3], spTightTrailing)})
+	}
 	r.Set("derived_rules", map[string]int{"queries": nQueries, "tables": nTables, "patterns": nPatterns})
 	r.Set("dialects", dialects)
 	r.Set("not_compared_outside_reference_domain", notCompared.Load())
